@@ -728,6 +728,10 @@ func (p *c15) Corpus() []any {
 			out = append(out, c15Case{Kind: "files", Note: "nested-archives", Files: []c15File{{Name: "charts/packed-0.1.0.tgz", Data: pb}, {Name: "Chart.yaml", Data: cy}, {Name: "charts/broken-0.1.0.tgz", Data: pb[:len(pb)/2]}}})
 		}
 	}
+	// a dependency named "/" (equal to its own base name, so Save accepts it): SaveDir's archive path
+	// is cleaned to charts/-v1.0.0.tgz (found by the thorough tier as a model error)
+	out = append(out, c15Case{Kind: "rt", Note: "dep-named-slash", Chart: &c15Chart{Meta: md("v2", "root", "0.1.0"),
+		Deps: []*c15Chart{{Meta: md("v2", "/", "v1.0.0"), Files: []c15File{{Name: "f", Data: []byte("f")}}}}}})
 	// negated and directory rules on a tree with nested directories
 	out = append(out, c15Case{Kind: "dir", Files: tree("!templates/\n")})
 	out = append(out, c15Case{Kind: "dir", Files: tree("docs/a/\n!*.md\n")})
